@@ -18,6 +18,8 @@ func init() { families["c10"] = runC10 }
 type ctxKey struct{}
 
 // Case: "<kind none|sync|async> <loggerLevel-hex> <refLevel-hex> <hooks: 3 bits time,string,fields>"
+type ctxBox struct{ ctx context.Context }
+
 // For each of the 15 entry points (+ Record at every probe level of C01) one call with its own context.
 // Observation: "err" or per call "<gen> <time calls:ctx ok> <string calls:ctx ok> <fields calls:ctx ok> <event seen 0|1> <content ok 0|1|->"
 func runC10(cases []string, out *bufio.Writer, _ []string) {
@@ -38,8 +40,9 @@ func runC10(cases []string, out *bufio.Writer, _ []string) {
 		kind, lv, rl, hooks := f[0], unhex(f[1]), unhex(f[2]), f[3]
 		var nTime, nStr, nFld, ctxBad atomic.Int64
 		var curCtx atomic.Int64
+		var curObj atomic.Value // the caller's context of the call in progress
 		check := func(ctx context.Context) {
-			if v, _ := ctx.Value(ctxKey{}).(int64); v != curCtx.Load() {
+			if c, _ := curObj.Load().(ctxBox); c.ctx != ctx {
 				ctxBad.Add(1)
 			}
 		}
@@ -84,7 +87,21 @@ func runC10(cases []string, out *bufio.Writer, _ []string) {
 		call := func(f func(ctx context.Context, id string, gen *int64)) {
 			n := int64(len(ids) + 1)
 			curCtx.Store(n)
-			ctx := context.WithValue(context.Background(), ctxKey{}, n)
+			// arbitrary contexts: a derived one, the two root contexts, an already cancelled one
+			var ctx context.Context
+			switch n % 4 {
+			case 0:
+				ctx = context.Background()
+			case 1:
+				ctx = context.WithValue(context.Background(), ctxKey{}, n)
+			case 2:
+				ctx = context.TODO()
+			default:
+				c, cancel := context.WithCancel(context.WithValue(context.Background(), ctxKey{}, n))
+				cancel()
+				ctx = c
+			}
+			curObj.Store(ctxBox{ctx})
 			id := fmt.Sprintf("<p%d>", n)
 			ids = append(ids, id)
 			t0, s0, f0, b0 := nTime.Load(), nStr.Load(), nFld.Load(), ctxBad.Load()
